@@ -13,15 +13,19 @@ from .common import REPRESENTATION
 LEVEL_TEXT = (
     "Interprocedural provenance analysis from the four genotype_to_phenotype entry points over the resolved call "
     "graph (context-sensitive on the provenance of arguments; constructed objects carry the provenance of their "
-    "fields): (R1) every call of a RandomSource primitive reachable from a mapping is classified by the provenance "
-    "of its receiver, pulled back to the entry: genotype-backed (a source built during the mapping from the "
-    "genotype's genes), permitted (the one allow-listed site: dynamic SGE's on-demand extension of the genotype "
-    "itself) or foreign (the decider's own stream, the genotype's stored search stream, a newly built source); "
-    "foreign draws are findings, keyed by entry point, source and drawing function; (R2) every attribute / item "
-    "store reachable from a mapping targets an object created during that mapping, or is allow-listed with a reason: "
-    "state reachable from the representation or the genotype must not be written, because it outlives the mapping "
-    "and makes the result depend on mapping history. Decides which source each decision is drawn from for all "
-    "grammars and genotypes; does not execute a mapping."
+    "fields, through super().__init__ / Base.__init__ chains): (R1) every call of a RandomSource primitive "
+    "reachable from a mapping is classified by the provenance of its receiver, pulled back to the entry: "
+    "genotype-backed (a source built during the mapping from the genotype's genes), permitted (the one allow-"
+    "listed site: dynamic SGE's on-demand extension of the genotype itself) or foreign (the decider's own stream,"
+    " the genotype's stored search stream, a newly built source); foreign draws are findings, keyed by entry "
+    "point, source and drawing function; (R2) every attribute / item store reachable from a mapping targets an "
+    "object created during that mapping, or is allow-listed with a reason: state reachable from the "
+    "representation or the genotype must not be written, because it outlives the mapping and makes the result "
+    "depend on mapping history. (R3) the permitted draw is an extension of the genotype: Genotype.get is "
+    "interpreted on gene tables without the key / with 0, 1, 2 genes and positions 0, 1 - afterwards the type's "
+    "list is at least position+1 long in the genotype itself, the stored gene is returned, existing genes and "
+    "other types are untouched and exactly the missing genes were drawn. Decides which source each decision is "
+    "drawn from for all grammars and genotypes; does not execute a mapping."
 )
 
 PERMIT_DRAW = {
